@@ -1769,6 +1769,13 @@ DIRECTED = [
      'twin': {'m': 'GET', 'path': '/ows', 'h': {},
               'qs': 'SERVICE=WMS&VERSION=1.3.0&REQUEST=GetMap&LAYERS=cached,nosuchlayer&STYLES=&CRS=EPSG:3857&BBOX=1000000.0,6000000.0,'
                     '1200000.0,6200000.0&WIDTH=333&HEIGHT=17&FORMAT=image/png,zq900002&EXCEPTIONS=INIMAGE'}},
+    # a cached png legend answered as image/jpeg (open known finding: reproduced in every run; the warm-up caches the png)
+    {'scn': 'A', 'svc': 'wms', 'op': 'legendgraphic_1.1.1', 'mut': 'none', 'param': '-', 'marker': None, 'payload': None,
+     'req': {'m': 'GET', 'path': '/service', 'h': {},
+             'qs': 'SERVICE=WMS&VERSION=1.1.1&REQUEST=GetLegendGraphic&FORMAT=image/jpeg&LAYER=direct'}},
+    # a truncated upstream image is stored and relayed (open known finding: reproduced in every run)
+    {'scn': 'A', 'svc': 'tiles', 'op': 'tile', 'mut': 'none', 'param': '-', 'marker': None, 'payload': None,
+     'req': {'m': 'GET', 'path': '/tiles/broken/gm/2/1/0.png', 'h': {}, 'qs': ''}},
 ]
 
 
@@ -1924,7 +1931,7 @@ def run_overlap(run, case):
 
 
 def gen_cases(run):
-    yield {'i': -1, 'items': DIRECTED}
+    yield {'i': -1, 'items': DIRECTED, 'must': True}
     for i in range(run.pick(120, 2000)):
         yield {'i': 500000 + i, 'kind': 'overlap', 'must': True}
     sw = sweep_items()
@@ -1950,7 +1957,7 @@ def run_case(run, case):
         return run_overlap(run, case)
     items = case.get('items') or gen_requests(run, case['i'])
     for item in items:
-        if run.out_of_time() and not run.replaying:
+        if run.out_of_time() and not run.replaying and not case.get('must'):
             run.count('requests_cut_by_budget')
             break
         w = world(run, item.get('scn', 'A'))
